@@ -387,10 +387,19 @@ type DerivCase struct {
 // parser instance shows whether anything is carried from one parse to the next.
 func spacingNeighbours(s string) []string {
 	var out []string
+	// (at most 24 places - the first and the last dozen: an input that is one
+	// long run of separators would otherwise cost its length squared, and the
+	// check of one string is itself linear to quadratic in its length)
+	var places []int
 	for i := 0; i < len(s); i++ {
-		if s[i] != ':' && s[i] != ',' {
-			continue
+		if s[i] == ':' || s[i] == ',' {
+			places = append(places, i)
 		}
+	}
+	if len(places) > 24 {
+		places = append(append([]int(nil), places[:12]...), places[len(places)-12:]...)
+	}
+	for _, i := range places {
 		out = append(out, s[:i+1]+" "+s[i+1:])
 		if i+1 < len(s) && s[i+1] == ' ' {
 			out = append(out, s[:i+1]+s[i+2:])
